@@ -12,16 +12,18 @@ def main():
     opts = {}
     names = []
     verbose = False
+    show = False
     while args:
         a = args.pop(0)
         if a == '--repo': repo = args.pop(0)
         elif a == '--unroll': opts['unroll'] = int(args.pop(0))
         elif a == '-v': verbose = True
+        elif a == '--show': show = True
         elif a == '--timeout': opts['timeout'] = int(args.pop(0))
         else: names.append(a)
     t0 = time.time()
     prog = ir.load_program(repo)
-    cs = cparse.load_contracts(repo)
+    cs = cparse.load_contracts(repo, extra_files=sorted(__import__('glob').glob(os.path.join(ir.ROOT, 'contracts', '*_verif.go'))))
     print('loaded %d funcs, %d contracts in %.1fs' % (len(prog.funcs), len(cs.funcs), time.time() - t0))
     if not names: names = [n for n, c in cs.funcs.items() if c.kind == 'func' and not c.trusted]
     tot = bad = 0
@@ -54,8 +56,11 @@ def main():
             tot += 1
             if not ok:
                 nb += 1; bad += 1
-                print('   FAIL %-60s %s  [%s] %s' % (nm, [o.result for o in os_ if o.result != 'unsat'][:3], os_[0].where, os_[0].text[:80]))
-            elif verbose:
+                print('   FAIL %-60s %s  [%s] %s' % (nm, [o.result for o in os_ if o.result != 'unsat'][:3], os_[0].where, os_[0].text[:200]))
+                if show:
+                    for o in os_:
+                        if o.result != 'unsat': print('        path(%s): %s' % (o.result, ' '.join('%s' % (b if f == n else '%s:%s' % (f, b)) for f, b in o.trace)))
+            elif verbose or sum(o.time for o in os_) > 1:
                 print('   ok   %-60s %d paths %.2fs' % (nm, len(os_), sum(o.time for o in os_)))
         print('%-50s %d names, %d instances, %d paths, %d failed, gen %.1fs solve %.1fs' % (n, len(agg), len(v.obls), v.npaths, nb, gen, time.time() - t1 - gen))
     print('TOTAL %d obligations, %d not discharged, %.1fs' % (tot, bad, time.time() - t0))
